@@ -241,6 +241,9 @@ var faultFlows = []faultFlow{
 			}
 		}
 	}},
+	{"dial-enroll-server-storage", func(fc *flowCtx) { wireFlow(fc, false, false) }},
+	{"dial-enroll-node-storage", func(fc *flowCtx) { wireFlow(fc, true, false) }},
+	{"dial-token-server-storage", func(fc *flowCtx) { wireFlow(fc, false, true) }},
 	{"node-handle-response", func(fc *flowCtx) {
 		fc.target = fc.node
 		creds, err := types.NewNodeCredentials(fc.node.Ctx, fc.node.Storage, fc.node.Opts()...)
@@ -273,6 +276,95 @@ var faultFlows = []faultFlow{
 			}
 		}
 	}},
+}
+
+// wireFlow runs one protocol.Dial of a pending node against the real listener; the storage fault hits the server's
+// storage (fetch + authentication handshakes) or the node's own storage (load, store of fetched credentials).
+func wireFlow(fc *flowCtx, faultNode bool, token bool) {
+	r := fc.r
+	var dopts []nodeenrollment.Option
+	var copts []nodeenrollment.Option
+	if token {
+		id, tok, err := registration.CreateServerLedActivationToken(fc.srv.Ctx, fc.srv.Storage, &types.ServerLedRegistrationRequest{}, fc.srv.Opts()...)
+		if err != nil {
+			r.HarnessErr("setup token: %v", err)
+		}
+		fc.tokenID = id
+		dopts = append(dopts, nodeenrollment.WithActivationToken(tok))
+		copts = dopts
+	}
+	c0, err := types.NewNodeCredentials(fc.node.Ctx, fc.node.Storage, fc.node.Opts(copts...)...)
+	if err != nil {
+		r.HarnessErr("setup node credentials: %v", err)
+	}
+	kid := keyID(c0.CertificatePublicKeyPkix)
+	if !token {
+		req, _ := c0.CreateFetchNodeCredentialsRequest(contextBG)
+		if _, err := registration.AuthorizeNode(fc.srv.Ctx, fc.srv.Storage, req, fc.srv.Opts()...); err != nil {
+			r.HarnessErr("setup authorize: %v", err)
+		}
+	}
+	if faultNode {
+		fc.target = fc.node
+	}
+	w := NewWire(r, fc.srv, nil, fc.srv.Opts())
+	w.StartAcceptor(fmt.Sprintf("acceptor%d", r.NextID()))
+	w.Quiesce()
+	var res *dialRes
+	var acc []*acceptRes
+	fc.call = func() error {
+		res = w.DialHonest(fmt.Sprintf("dial%d", r.NextID()), fc.node, w.Addr, dopts...)
+		w.Quiesce()
+		acc = w.Take()
+		if !res.done {
+			r.Violate("fail-closed", "dial-stuck-under-storage-fault", "Dial did not return; parked=%v", r.Sched.ParkedAt())
+		}
+		return res.err
+	}
+	name := map[bool]string{false: "server-storage", true: "node-storage"}[faultNode]
+	fc.verify = func(err error) {
+		for _, a := range acc {
+			if a.panicMsg != "" {
+				fc.v("no-panic", "accept-panic-under-storage-fault/"+a.panicSite, "%s", a.panicMsg)
+			}
+			if a.err != nil && !a.temporary {
+				fc.v("fail-closed", "listener-stopped-by-storage-fault", "a storage fault during a handshake produced a non-temporary Accept error: %v", a.err)
+			}
+		}
+		stored, lerr := types.LoadNodeCredentials(contextBG, fc.node.Inner, nodeenrollment.CurrentId, fc.node.Opts()...)
+		if lerr != nil {
+			fc.v("durable", "node-credentials-lost/"+name, "after a dial under a storage fault the node's stored credentials cannot be loaded: %v", lerr)
+		}
+		if n := len(stored.CertificateBundles); n != 0 && n != 2 {
+			fc.v("durable", "node-credentials-half-written/"+name, "node stores %d certificate chains", n)
+		}
+		if !bytes.Equal(stored.CertificatePublicKeyPkix, c0.CertificatePublicKeyPkix) {
+			fc.v("durable", "node-key-changed/"+name, "the node's stored key changed")
+		}
+		rec := loadInfo(fc.srv, kid)
+		if err == nil {
+			if len(stored.CertificateBundles) != 2 {
+				fc.v("durable", "dial-succeeded-without-stored-credentials/"+name, "Dial returned a connection but the node's credentials were not persisted")
+			}
+			if rec == nil {
+				fc.v("durable", "dial-succeeded-without-node-record/"+name, "Dial returned a connection but the server stores no record for the node")
+			}
+		}
+		if token && rec != nil && tokenPresent(fc.srv, fc.tokenID) {
+			fc.v("token-consumed", "token-usable-after-record-created", "a node record was created through the token but the token is still stored")
+		}
+		for _, a := range acc {
+			if a.raw != nil {
+				a.raw.Close()
+			}
+		}
+		if res != nil && res.conn != nil {
+			res.conn.Close()
+		}
+		w.Ln.Close()
+		w.Quiesce()
+		w.Take()
+	}
 }
 
 func rootsFlow(fc *flowCtx, reinit bool) {
